@@ -2,12 +2,17 @@
 
 package main
 
-// pp cases: token sequences over the operator core (atoms, all binary operators, unary minus, postfix `?`,
-// parentheses, `as $v |`, `label $l |`, `if … then … end`), grammar-derived and randomly damaged, parsed by the
-// real parser (`_query_fromstring`); the driver parses the same tokens with the Lean precedence-climbing parser
-// (FqModel/C11Print.lean) and compares the trees — this ties the model's precedence table to the fork's grammar.
+// pp cases: TOKEN sequences over (almost) the whole term/query grammar of the fork — every production of
+// parser.go.y for query, expr, term, string, suffix, args, patterns, objects, if/try/reduce/foreach/label/break/def —
+// grammar-derived and randomly damaged, parsed by the real parser (`_query_fromstring`); the driver parses the same
+// tokens with the Lean parser (FqModel/C11Full.lean) and compares the trees, both directions incl. rejections.
+// This ties the model's grammar and precedence table to the fork's.
 //
-//	pp <tok> <tok> ...      AST JSON | "reject"
+//	pp <word> <word> ...      AST JSON | "reject"
+//
+// words: numbers, "plain" strings, identifiers, $variables, .fields, @formats, `.`, `..`, keywords, operators,
+// `?`, `?//`, ( ) [ ] { } : ;, and for interpolated strings `S<` (start) `\(` (query start) `>S` (end) with the
+// literal pieces written as "plain" words.
 
 import (
 	"strings"
@@ -16,7 +21,15 @@ import (
 )
 
 var ppOps = []string{"|", ",", "//", "=", "|=", "+=", "-=", "*=", "/=", "%=", "//=", "or", "and", "==", "!=", "<", "<=", ">", ">=", "+", "-", "*", "/", "%"}
-var ppAtoms = []string{"a", "b", "c", "$x", "1", "f"}
+var ppExprOps = []string{"//", "=", "|=", "+=", "-=", "*=", "/=", "%=", "//=", "or", "and", "==", "!=", "<", "<=", ">", ">=", "+", "-", "*", "/", "%"}
+var ppIdents = []string{"a", "b", "c", "f", "g", "empty", "error", "not"}
+var ppVars = []string{"$x", "$y", "$v", "$__loc__", "$ENV"}
+var ppFields = []string{".a", ".b", ".foo", ".if", ".and", "._x"}
+var ppNums = []string{"0", "1", "2", "10", "1.5", ".5", "1e3", "0x1f", "0o17", "0b101", "0x1_000", "0b1111_0000", "007"}
+var ppStrs = []string{`"a"`, `"b"`, `"xy"`, `""`, `"k1"`}
+var ppFmts = []string{"@base64", "@json", "@text"}
+var ppKeywords = []string{"or", "and", "module", "import", "include", "def", "as", "label", "break", "null", "true", "false",
+	"if", "then", "elif", "else", "end", "try", "catch", "reduce", "foreach"}
 
 type ppGen struct {
 	r    *hlib.Rand
@@ -24,28 +37,313 @@ type ppGen struct {
 	n    int
 }
 
-func (g *ppGen) e(t string) { g.toks = append(g.toks, t); g.n-- }
+func (g *ppGen) e(ts ...string)       { g.toks = append(g.toks, ts...); g.n -= len(ts) }
+func (g *ppGen) pick(ss []string) string { return ss[g.r.Intn(len(ss))] }
+func (g *ppGen) chance(p int) bool    { return g.r.Intn(100) < p }
 
-func (g *ppGen) term(d int) {
-	switch k := g.r.Intn(12); {
-	case d > 0 && g.n > 3 && k == 0:
-		g.e("(")
+// string: plain, or interpolated with at least one query and non-adjacent non-empty pieces (what the lexer can emit)
+func (g *ppGen) str(d int) {
+	if d <= 0 || g.n < 6 || g.chance(70) {
+		g.e(g.pick(ppStrs))
+		return
+	}
+	g.e("S<")
+	piece := func() {
+		if g.chance(50) {
+			g.e(g.pick([]string{`"p"`, `"q1"`, `"zz"`}))
+		}
+	}
+	piece()
+	for i, k := 0, 1+g.r.Intn(2); i < k; i++ {
+		g.e(`\(`)
 		g.query(d - 1)
 		g.e(")")
-	case d > 0 && g.n > 3 && k == 1:
-		g.e("-")
-		g.term(d - 1)
-	case d > 0 && g.n > 5 && k == 2:
-		g.e("if")
-		g.query(d - 1)
-		g.e("then")
-		g.query(d - 1)
-		g.e("end")
-	default:
-		g.e(ppAtoms[g.r.Intn(len(ppAtoms))])
+		if i < k-1 {
+			g.e(g.pick([]string{`"p"`, `"-"`})) // a piece between two queries keeps them apart (optional in the lexer, fixed here)
+		}
 	}
-	for g.r.Intn(100) < 15 {
-		g.e("?")
+	piece()
+	g.e(">S")
+}
+
+func (g *ppGen) key() string {
+	switch g.r.Intn(4) {
+	case 0:
+		return g.pick(ppVars)
+	case 1:
+		return g.pick(ppKeywords)
+	default:
+		return g.pick([]string{"a", "b", "k", "foo"})
+	}
+}
+
+func (g *ppGen) objVal(d int) {
+	g.expr(d)
+	for g.chance(20) {
+		g.e("|")
+		g.expr(d)
+	}
+}
+
+func (g *ppGen) pattern(d int) {
+	switch {
+	case d <= 0 || g.chance(50):
+		g.e(g.pick(ppVars))
+	case g.chance(50):
+		g.e("[")
+		for i, k := 0, 1+g.r.Intn(3); i < k; i++ {
+			if i > 0 {
+				g.e(",")
+			}
+			g.pattern(d - 1)
+		}
+		g.e("]")
+	default:
+		g.e("{")
+		for i, k := 0, 1+g.r.Intn(3); i < k; i++ {
+			if i > 0 {
+				g.e(",")
+			}
+			switch g.r.Intn(5) {
+			case 0:
+				g.e(g.pick(ppVars))
+			case 1:
+				g.e(g.key(), ":")
+				g.pattern(d - 1)
+			case 2:
+				g.str(d - 1)
+				g.e(":")
+				g.pattern(d - 1)
+			case 3:
+				g.e("(")
+				g.query(d - 1)
+				g.e(")", ":")
+				g.pattern(d - 1)
+			default:
+				g.e(g.pick([]string{"a", "b"}), ":")
+				g.pattern(d - 1)
+			}
+		}
+		g.e("}")
+	}
+}
+
+func (g *ppGen) bracket(d int) {
+	g.e("[")
+	switch g.r.Intn(6) {
+	case 0, 1:
+	case 2:
+		g.query(d - 1)
+	case 3:
+		g.query(d - 1)
+		g.e(":")
+	case 4:
+		g.e(":")
+		g.query(d - 1)
+	default:
+		g.query(d - 1)
+		g.e(":")
+		g.query(d - 1)
+	}
+	g.e("]")
+}
+
+func (g *ppGen) atom() {
+	switch g.r.Intn(12) {
+	case 0, 1:
+		g.e(g.pick(ppNums))
+	case 2:
+		g.e(g.pick(ppStrs))
+	case 3, 4:
+		g.e(g.pick(ppIdents))
+	case 5:
+		g.e(g.pick(ppVars))
+	case 6, 7:
+		g.e(g.pick(ppFields))
+	case 8:
+		g.e(".")
+	case 9:
+		g.e("..")
+	case 10:
+		g.e(g.pick([]string{"null", "true", "false"}))
+	default:
+		g.e(g.pick(ppFmts))
+	}
+}
+
+func (g *ppGen) term(d int) {
+	if d <= 0 || g.n < 4 {
+		g.atom()
+	} else {
+		switch g.r.Intn(26) {
+		case 0:
+			g.e("(")
+			g.query(d - 1)
+			g.e(")")
+		case 1, 2:
+			g.e(g.pick([]string{"-", "-", "+"}))
+			g.term(d - 1)
+			return // postfix belongs to the inner term
+		case 3:
+			g.e("if")
+			g.query(d - 1)
+			g.e("then")
+			g.query(d - 1)
+			for g.chance(25) {
+				g.e("elif")
+				g.query(d - 1)
+				g.e("then")
+				g.query(d - 1)
+			}
+			if g.chance(50) {
+				g.e("else")
+				g.query(d - 1)
+			}
+			g.e("end")
+		case 4, 5:
+			g.e("try")
+			g.term(d - 1)
+			if g.chance(55) {
+				g.e("catch")
+				g.term(d - 1)
+			}
+			return
+		case 6:
+			g.e("reduce")
+			g.expr(d - 1)
+			g.e("as")
+			g.pattern(d - 1)
+			g.e("(")
+			g.query(d - 1)
+			g.e(";")
+			g.query(d - 1)
+			g.e(")")
+		case 7:
+			g.e("foreach")
+			g.expr(d - 1)
+			g.e("as")
+			g.pattern(d - 1)
+			g.e("(")
+			g.query(d - 1)
+			g.e(";")
+			g.query(d - 1)
+			if g.chance(50) {
+				g.e(";")
+				g.query(d - 1)
+			}
+			g.e(")")
+		case 8:
+			g.e("break", g.pick(ppVars))
+		case 9:
+			g.e(g.pick(ppIdents), "(")
+			for i, k := 0, 1+g.r.Intn(3); i < k; i++ {
+				if i > 0 {
+					g.e(";")
+				}
+				g.query(d - 1)
+			}
+			g.e(")")
+		case 10:
+			g.e(".")
+			g.bracket(d)
+		case 11:
+			g.e(".")
+			g.str(d - 1)
+		case 12:
+			g.e(g.pick(ppFmts))
+			g.str(d - 1)
+		case 13:
+			g.str(d)
+		case 14:
+			g.e("[")
+			if g.chance(80) {
+				g.query(d - 1)
+			}
+			g.e("]")
+		case 15, 16:
+			g.e("{")
+			for i, k := 0, g.r.Intn(4); i < k; i++ {
+				if i > 0 {
+					g.e(",")
+				}
+				switch g.r.Intn(6) {
+				case 0:
+					g.e(g.key())
+				case 1:
+					g.str(d - 1)
+				case 2:
+					g.str(d - 1)
+					g.e(":")
+					g.objVal(d - 1)
+				case 3:
+					g.e("(")
+					g.query(d - 1)
+					g.e(")", ":")
+					g.objVal(d - 1)
+				default:
+					g.e(g.key(), ":")
+					g.objVal(d - 1)
+				}
+			}
+			g.e("}")
+		default:
+			g.atom()
+		}
+	}
+	for g.chance(28) && g.n > 0 {
+		switch g.r.Intn(6) {
+		case 0, 1:
+			g.e("?")
+		case 2, 3:
+			g.e(g.pick(ppFields))
+		case 4:
+			g.bracket(d)
+		default:
+			g.e(".")
+			g.str(d - 1)
+		}
+	}
+}
+
+func (g *ppGen) expr(d int) {
+	g.term(d)
+	for d > 0 && g.n > 2 && g.chance(40) {
+		g.e(g.pick(ppExprOps))
+		g.term(d - 1)
+	}
+}
+
+func (g *ppGen) open(d int) {
+	switch g.r.Intn(3) {
+	case 0:
+		g.term(d - 1)
+		g.e("as")
+		g.pattern(d - 1)
+		for g.chance(25) {
+			g.e("?//")
+			g.pattern(d - 1)
+		}
+		g.e("|")
+		g.query(d - 1)
+	case 1:
+		g.e("label", g.pick([]string{"$l", "$out"}), "|")
+		g.query(d - 1)
+	default:
+		g.e("def", g.pick([]string{"f", "g", "h"}))
+		if g.chance(50) {
+			g.e("(")
+			for i, k := 0, 1+g.r.Intn(3); i < k; i++ {
+				if i > 0 {
+					g.e(";")
+				}
+				g.e(g.pick([]string{"f", "g", "$x", "$y"}))
+			}
+			g.e(")")
+		}
+		g.e(":")
+		g.query(d - 1)
+		g.e(";")
+		g.query(d - 1)
 	}
 }
 
@@ -54,42 +352,29 @@ func (g *ppGen) query(d int) {
 		g.term(0)
 		return
 	}
-	switch g.r.Intn(10) {
-	case 0:
-		g.term(d - 1)
-		g.e("as:" + []string{"$v", "$x"}[g.r.Intn(2)])
-		g.query(d - 1)
-	case 1:
-		g.e("label:$l")
-		g.query(d - 1)
-	default:
-		g.term(d - 1)
-		for g.n > 2 && g.r.Intn(100) < 70 {
-			g.e(ppOps[g.r.Intn(len(ppOps))])
-			if g.r.Intn(100) < 12 {
-				// a query-level operand after the operator (valid only after `|` and `,`)
-				if g.r.Intn(2) == 0 {
-					g.term(d - 1)
-					g.e("as:$v")
-					g.query(d - 1)
-				} else {
-					g.e("label:$l")
-					g.query(d - 1)
-				}
-				return
-			}
-			g.term(d - 1)
+	if g.chance(18) {
+		g.open(d)
+		return
+	}
+	g.term(d - 1)
+	for g.n > 2 && g.chance(60) {
+		g.e(g.pick(ppOps))
+		if g.chance(12) {
+			g.open(d) // valid only after `|` and `,`
+			return
 		}
+		g.term(d - 1)
 	}
 }
 
 func genPP(r *hlib.Rand) []string {
-	g := &ppGen{r: r, n: 4 + r.Intn(26)}
+	g := &ppGen{r: r, n: 4 + r.Intn(36)}
 	g.query(1 + r.Intn(4))
 	toks := g.toks
 	// damage some sequences: the parsers must agree on rejection too
-	if r.Intn(100) < 15 && len(toks) > 1 {
-		all := append(append([]string{}, ppOps...), "?", "(", ")", "as:$v", "label:$l", "if", "then", "end", "a")
+	if r.Intn(100) < 12 && len(toks) > 1 {
+		all := append(append([]string{}, ppOps...), "?", "(", ")", "[", "]", "{", "}", ":", ";", "as", "label", "if", "then", "else", "end", "try",
+			"catch", "a", "$x", ".a", ".", "1", `"s"`, "?//", "def", "reduce", "break")
 		switch r.Intn(3) {
 		case 0:
 			i := r.Intn(len(toks))
@@ -104,53 +389,140 @@ func genPP(r *hlib.Rand) []string {
 	return toks
 }
 
-func ppText(toks []string) string {
+// ppText renders the words as program text; ok=false when the string tokens are not properly nested (then the text
+// would not lex to these tokens)
+func ppText(toks []string) (text string, ok bool) {
 	var sb strings.Builder
-	for i, t := range toks {
-		if i > 0 {
+	type ctx struct {
+		inStr bool
+		depth int // parenthesis depth inside an interpolation
+	}
+	stack := []ctx{{}}
+	top := func() *ctx { return &stack[len(stack)-1] }
+	tight := true
+	emit := func(s string) {
+		if !tight {
 			sb.WriteByte(' ')
 		}
-		switch {
-		case strings.HasPrefix(t, "as:"):
-			sb.WriteString("as " + t[3:] + " |")
-		case strings.HasPrefix(t, "label:"):
-			sb.WriteString("label " + t[6:] + " |")
-		default:
-			sb.WriteString(t)
-		}
+		sb.WriteString(s)
+		tight = false
 	}
-	return sb.String()
+	prevPiece := false
+	for _, t := range toks {
+		c := top()
+		isPiece := false
+		switch {
+		case c.inStr:
+			switch {
+			case t == `\(`:
+				sb.WriteString(`\(`)
+				stack = append(stack, ctx{})
+				tight = false
+			case t == ">S":
+				sb.WriteString(`"`)
+				stack = stack[:len(stack)-1]
+				tight = false
+			case len(t) >= 2 && t[0] == '"' && t[len(t)-1] == '"':
+				if prevPiece || len(t) == 2 {
+					return "", false // adjacent or empty pieces cannot come out of the lexer
+				}
+				sb.WriteString(t[1 : len(t)-1])
+				isPiece = true
+			default:
+				return "", false
+			}
+		case t == "S<":
+			emit(`"`)
+			stack = append(stack, ctx{inStr: true})
+			tight = true
+		case t == `\(` || t == ">S":
+			return "", false
+		case t == "(":
+			c.depth++
+			emit(t)
+		case t == ")":
+			if c.depth == 0 && len(stack) > 1 {
+				// closes the interpolation
+				sb.WriteString(" )")
+				stack = stack[:len(stack)-1]
+				tight = true
+			} else {
+				c.depth--
+				emit(t)
+			}
+		default:
+			emit(t)
+		}
+		prevPiece = isPiece
+	}
+	if len(stack) != 1 {
+		return "", false
+	}
+	return sb.String(), true
 }
 
-const ppExpr = `map(. as $p | try ($p | _query_fromstring) catch "reject")`
-
-// outside the modelled core: the empty program, unary plus (a fork extension; the model has unary minus), and an
-// identifier directly followed by `(` (a call with arguments)
+// outside the modelled grammar (see FqModel/C11Full.lean): the empty program, `term . [` (prints without the dot),
+// a trailing comma in an object, an interpolated string without a query, two adjacent plain strings
 func ppOutsideCore(toks []string) bool {
-	if len(toks) == 0 {
-		return true
+	if len(toks) == 0 || toks[len(toks)-1] == ";" {
+		return true // empty, or a program of definitions only
 	}
-	isOp := func(t string) bool {
+	for _, t := range toks {
+		if strings.Contains(t, "::") {
+			return true // module identifiers/variables are separate token classes (terms only)
+		}
+	}
+	termEnd := func(p string) bool {
+		switch p {
+		case ")", "]", "}", "?", "..", ".", ">S", "null", "true", "false", "end":
+			return true
+		}
+		if p == "" {
+			return false
+		}
 		for _, o := range ppOps {
-			if o == t {
-				return true
+			if o == p {
+				return false
 			}
 		}
-		return false
+		for _, k := range ppKeywords {
+			if k == p {
+				return false
+			}
+		}
+		switch p {
+		case "(", "[", "{", ":", ";", "?//", "S<", `\(`:
+			return false
+		}
+		return true // identifiers, variables, fields, numbers, strings, formats
 	}
+	isStr := func(t string) bool { return len(t) >= 2 && t[0] == '"' }
 	for i, t := range toks {
-		if t == "+" {
-			if i == 0 {
-				return true
+		if t == "." && i+1 < len(toks) && toks[i+1] == "[" && i > 0 && termEnd(toks[i-1]) {
+			return true
+		}
+		if t == "," && i+1 < len(toks) && toks[i+1] == "}" {
+			return true
+		}
+		if isStr(t) && i+1 < len(toks) && isStr(toks[i+1]) {
+			return true
+		}
+		if t == "S<" {
+			// needs a query before the end
+			has := false
+			for j := i + 1; j < len(toks) && toks[j] != ">S"; j++ {
+				if toks[j] == `\(` {
+					has = true
+					break
+				}
 			}
-			p := toks[i-1]
-			if isOp(p) || p == "(" || p == "if" || p == "then" || strings.HasPrefix(p, "as:") || strings.HasPrefix(p, "label:") {
+			if !has {
 				return true
 			}
 		}
-		if t == "(" && i > 0 {
-			p := toks[i-1]
-			if !(isOp(p) || p == "(" || p == "if" || p == "then" || strings.HasPrefix(p, "as:") || strings.HasPrefix(p, "label:")) && p != "?" && p != ")" && p != "end" {
+		// keywords that only make sense in directives
+		if t == "import" || t == "include" || t == "module" {
+			if !(i+1 < len(toks) && toks[i+1] == ":") && !(i > 0 && (toks[i-1] == "{" || toks[i-1] == ",")) {
 				return true
 			}
 		}
@@ -158,20 +530,25 @@ func ppOutsideCore(toks []string) bool {
 	return false
 }
 
+const ppExpr = `map(. as $p | try ($p | _query_fromstring) catch "reject")`
+
 func (rn *runner) pp(all [][]string) {
 	var cs [][]string
+	var texts []any
 	for _, c := range all {
 		if ppOutsideCore(c) {
 			rn.o.Stat("pp_outside_core", 1)
 			continue
 		}
+		text, ok := ppText(c)
+		if !ok {
+			rn.o.Stat("pp_outside_core", 1)
+			continue
+		}
 		cs = append(cs, c)
+		texts = append(texts, text)
 	}
-	in := make([]any, len(cs))
-	for i, c := range cs {
-		in[i] = ppText(c)
-	}
-	res := evalEach(ppExpr, in)
+	res := evalEach(ppExpr, texts)
 	for i, c := range cs {
 		op := "pp " + strings.Join(c, " ")
 		rn.o.Case(op, jsonText(res[i]))
@@ -180,23 +557,40 @@ func (rn *runner) pp(all [][]string) {
 			rn.o.Stat("pp_reject", 1)
 		} else if len(c) >= 5 {
 			rn.o.Class(op)
-			if len(c) > 10 {
-				rn.o.Sample("pp " + ppText(c))
+			if len(c) > 14 {
+				rn.o.Sample("pp " + texts[i].(string))
 			}
 		}
 	}
 }
 
-// the cases named in the property statement and the corners of the precedence table
+// the cases named in the property statement and the corners of the grammar
 var ppFixed = []string{
 	"a - b - c", "a / b / c", "a // b // c", "a | b | c", "a , b , c", "a == b == c", "a = b = c", "a == b != c", "a < b == c", "a = b |= c",
-	"a + b * c", "a * b + c", "a - b * c - d", "a and b or c", "a or b and c", "a // b or c", "a or b // c", "a = b // c", "a // b = c",
-	"a | b , c", "a , b | c", "- a", "- - a", "- a ?", "( - a ) ?", "a ? ?", "- a - - b", "a - - b", "a * - b", "- a * b",
-	"a as:$v b", "a as:$v b , c", "a , b as:$v c , a", "a | b as:$v c | a", "a + b as:$v c", "a // b as:$v c", "- a as:$v b", "a ? as:$v b",
-	"label:$l a", "label:$l a | b", "a | label:$l b , c", "a , label:$l b", "a + label:$l b", "( label:$l a ) + b",
-	"if a then b end", "if a , b then c | a end ?", "if a then b end - c", "- if a then b end", "if a as:$v b then c end",
-	"( a , b ) * c", "( a as:$v b ) , c", "( a )", "( ( a ) )", "a ( b )", "a b", "a +", "+ a", "( a", "a )", "", "?", "a as:$v", "as:$v a", "if a then end",
+	"a + b * c", "a * b + c", "a - b * c - a", "a and b or c", "a or b and c", "a // b or c", "a or b // c", "a = b // c", "a // b = c",
+	"a | b , c", "a , b | c", "- a", "- - a", "- a ?", "( - a ) ?", "a ? ?", "- a - - b", "a - - b", "a * - b", "- a * b", "+ a", "+ - a", "a + + b",
+	"a as $v | b", "a as $v | b , c", "a , b as $v | c , a", "a | b as $v | c | a", "a + b as $v | c", "a // b as $v | c", "- a as $v | b", "a ? as $v | b",
+	"label $l | a", "label $l | a | b", "a | label $l | b , c", "a , label $l | b", "a + label $l | b", "( label $l | a ) + b",
+	"if a then b end", "if a , b then c | a end ?", "if a then b end - c", "- if a then b end", "if a as $v | b then c end",
+	"if a then b elif c then a elif b then c else a end", "if a then b else c end .a [ 0 ]",
+	"( a , b ) * c", "( a as $v | b ) , c", "( a )", "( ( a ) )", "a ( b )", "a ( b ; c , a ; b | c )", "a b", "a +", "( a", "a )", "?", "a as $v |", "as $v | a", "if a then end",
 	"a = b == c", "a == b = c", "a < b + c < a", "a and b == c and a", "a * b / c % a", "a - b + c - a", "a |= b += c", "a , b // c , a",
+	"try a", "try a catch b", "try try a catch b", "try try a catch b catch c", "try ( try a ) catch b", "try a ?", "try - a", "try a + b", "try a catch b + c",
+	"try a catch try b", "try a catch try b catch c", "- try a catch b", "try - try a catch b", "try a as $v | b", "try a . b", "try a .b catch c [ 0 ]",
+	"reduce a as $x ( 0 ; . + $x )", "reduce a // b as [ $x , { k : $y } ] ( 0 ; . ) ?", "reduce a , b as $x ( 0 ; 1 )", "reduce a | b as $x ( 0 ; 1 )",
+	"foreach a as $x ( 0 ; 1 )", "foreach a as $x ( 0 ; 1 ; 2 )", "foreach a as $x ( 0 ; 1 ; 2 ; 3 )", "reduce - a as $x ( 0 ; 1 )",
+	"break $x", "label $l | break $l", "break $x .a", "break",
+	"def f : a ; b", "def f ( g ; $x ) : a ; b", "def f : def g : a ; b ; c", "a | def f : b ; c , a", "a + def f : b ; c", "def f : a ;", "def f ( ) : a ; b",
+	"def f : a ; b | c", "( def f : a ; b ) | c", "def f ( $x ) : a as $y | b ; c",
+	". as [ $a , { b : $c , $d , \"e\" : $f , ( 1 ) : $g , $h : [ $i ] , if : $j } ] ?// $z ?// [ $w ] | a", ". as { } | a", ". as [ ] | a", ". as $a ?// | a",
+	".a", ".a .b", ". .a", ".. .a", ".a ?", ".a [ 0 ]", ".a [ ]", ".a [ 1 : ]", ".a [ : 2 ]", ".a [ 1 : 2 ]", ".a [ 1 , 2 : 3 | 4 ]", ". [ 0 ]", ". [ ]", ". [ ] ?", ". [ 1 : 2 ] .a",
+	". \"a\"", ". \"a\" .b", ".a . \"b\"", ". . \"b\"", ". S< \"p\" \\( 1 ) >S", ".a . S< \\( 1 ) \"p\" >S [ 0 ]", ".. [ 0 ]", "1 [ 0 ]", "1 .a", "$x .a [ 0 ] ? .b",
+	"\"a\"", "S< \\( 1 ) >S", "S< \"p\" \\( 1 + 2 ) \"q1\" \\( S< \\( a ) >S ) >S", "@base64", "@base64 \"a\"", "@json S< \"p\" \\( . ) >S", "@text .a", "@text . \"a\"",
+	"[ ]", "[ a ]", "[ a , b | c ]", "[ a as $x | b ]", "{ }", "{ a : 1 }", "{ a : 1 , \"b\" : 2 , ( 1 ) : 3 , $x , c , \"d\" , S< \\( 1 ) >S , if : 1 , and : 2 , or }",
+	"{ a : 1 | 2 }", "{ a : 1 | 2 | 3 , b : 4 }", "{ a : 1 , 2 }", "{ a : 1 // 2 + 3 }", "{ a : - 1 }", "{ a : b as $x | c }", "{ a : label $l | b }", "{ ( a , b | c ) : 1 }",
+	"{ $__loc__ }", "{ a : . as [ $x ] | 1 }", "{ a : ( . as $x | 1 ) }", "{ \"a\" : 1 , }", "{ , }", "{ a b }", "{ 1 : 2 }",
+	"0x1f + 0o17 * 0b101 - 0x1_000", "1.5 / .5 % 1e3", "null , true , false", "$__loc__ , $ENV .a",
+	"a ? // b", "a ?// b", "a as $x ?// $y | b",
 }
 
 func (rn *runner) ppAll(r *hlib.Rand, n int) {
